@@ -2,7 +2,8 @@
 PROP = "C15"
 LEVEL = "exploration"
 ENGINE = "pyvc+bounded"
-HARNESS_MODULES = ["contracts.c15_leaf_codecs", "contracts.c15_combinators"]
+HARNESS_MODULES = ["contracts.c15_leaf_codecs", "contracts.c15_combinators", "contracts.c16_wrappers"]
+EXTRA_HARNESSES = [("C16", "serialize_problem_contract"), ("C16", "deserialize_problem_contract")]
 
 
 def bounded(tier, seed, rep):
